@@ -4,6 +4,7 @@ from functools import wraps
 from typing import Any
 
 from pedantic.constants import F, ReturnType
+from pedantic.helper_methods import _Shown, _shown_args, _shown_kwargs
 
 
 def trace(func: F) -> F:
@@ -23,16 +24,16 @@ def trace(func: F) -> F:
 
     @wraps(func)
     def wrapper(*args: Any, **kwargs: Any) -> ReturnType:
-        print(f'Trace: {datetime.now()} calling {func.__name__}()  with {args}, {kwargs}')
+        print(f'Trace: {datetime.now()} calling {func.__name__}()  with {_shown_args(args)}, {_shown_kwargs(kwargs)}')
         original_result = func(*args, **kwargs)
-        print(f'Trace: {datetime.now()} {func.__name__}() returned {original_result!r}')
+        print(f'Trace: {datetime.now()} {func.__name__}() returned {_Shown(original_result)!r}')
         return original_result
 
     @wraps(func)
     async def async_wrapper(*args: Any, **kwargs: Any) -> ReturnType:
-        print(f'Trace: {datetime.now()} calling {func.__name__}()  with {args}, {kwargs}')
+        print(f'Trace: {datetime.now()} calling {func.__name__}()  with {_shown_args(args)}, {_shown_kwargs(kwargs)}')
         original_result = await func(*args, **kwargs)
-        print(f'Trace: {datetime.now()} {func.__name__}() returned {original_result!r}')
+        print(f'Trace: {datetime.now()} {func.__name__}() returned {_Shown(original_result)!r}')
         return original_result
 
     if inspect.iscoroutinefunction(func):
